@@ -548,7 +548,8 @@ def negslice_case(draw):
     n = m + 15 + draw(st.integers(0, 15)) + (args[0] if form == "start_stop" else 0)
     pre = draw(st.lists(st.builds(lambda f: ["map", f], st.sampled_from(["id", "ctx_mut"])), max_size=1))
     post = draw(st.lists(st.builds(lambda f: ["map", f], st.sampled_from(["id", "ctx_mut"])), max_size=1))
-    return {"args": args, "n": n, "pre": pre, "post": post, "form": form}
+    # the flow reaches the Slice directly, or as the tail of a Source whose head chains one-time iterators
+    return {"args": args, "n": n, "pre": pre, "post": post, "form": form, "head": draw(st.sampled_from(["run", "run", "chain", "chain2"]))}
 
 
 def alive(refs):
@@ -564,7 +565,15 @@ def judge_negslice(case):
     index = max(abs(a) for a in (start, stop) if a is not None and a < 0)
     log, refs = [], []
     src = Src([mkval(i) for i in range(n)], log, refs=refs)
-    it = build(els, log).run(src)
+    head = case.get("head", "run")
+    if head == "run":
+        it = build(els, log).run(src)
+    else:
+        from lena.flow import Chain
+        chain = Chain(src) if head == "chain" else Chain(iter([]), src, iter(()))
+        source = Source(chain, *[build_el(r, log) for r in els])
+        check_idle(log, src, "construction", case)
+        it = source()
     check_idle(log, src, "run()", case)
     exp = list(range(n))[sl]
     got = []
@@ -605,7 +614,7 @@ def judge_negslice(case):
                             tuple(args), n, src.pulls))
     if got != exp:
         raise Violation("negative-slice-differs-from-list-slicing", "Slice%s over range(%d): %s expected %s" % (tuple(args), n, short(got), short(exp)))
-    return {"nontrivial": len(exp) >= 1, "classes": ["form=" + case["form"], "step=%s" % step, "worst-alive-minus-index=%d" % (worst - index)]}
+    return {"nontrivial": len(exp) >= 1, "classes": ["form=" + case["form"], "step=%s" % step, "head=" + head, "worst-alive-minus-index=%d" % (worst - index)]}
 
 
 # ---- Split block trace and liveness ---------------------------------------------
